@@ -388,3 +388,24 @@ Definition chk_c19_rust (files : list ast) (impl : sx) (stem : string) (written 
        N.of_nat (List.length exp)]
   | _ => [b2n (outcome_agree m impl); 1; 1; 0]
   end.
+
+(* ---- C17 ---- *)
+Require Import Consts.
+(* per literal: 0 = model, Spec and implementation agree; 1 = model <> implementation;
+   2 = Spec <> implementation (integers); 3 = outside the model (hex literal, float type) *)
+Definition chk_const (p : prim) (raw : string) (impl_accept : bool) : N :=
+  match range_check p raw with
+  | None => 3
+  | Some m =>
+      if negb (Bool.eqb m impl_accept) then 1
+      else match int_bits p with
+           | Some _ => if Bool.eqb (spec_accept_int p raw) impl_accept then 0 else 2
+           | None => 0
+           end
+  end.
+Definition chk_c17 (cs : list (prim * string * bool)) : list N :=
+  map (fun x => let '(p, raw, a) := x in chk_const p raw a) cs.
+(* expected values the probes are compared with: (C/C++/Java reading, Rust reading, mathematical) *)
+Definition z_or (o : option Z) : Z := match o with Some v => v | None => (-999999999999)%Z end.
+Definition const_values (raw : string) : list Z :=
+  [z_or (eval_c_int raw); z_or (eval_rust_int raw); z_or (math_int (parse_literal raw))].
